@@ -41,6 +41,19 @@ theorem KeysNonEmpty.keysSome {d : PyRt.GData} (h : KeysNonEmpty d) : KeysSome d
   obtain ⟨c, r, hcr⟩ := h kv hkv e he
   exact ⟨_, hcr⟩
 
+/-- a checker for concrete values (`by decide`) -/
+def keysNonEmptyB (d : PyRt.GData) : Bool :=
+  d.all (fun kv => kv.2.all (fun e => match e.1 with | some (_ :: _) => true | _ => false))
+
+theorem keysNonEmpty_of_B (d : PyRt.GData) (h : keysNonEmptyB d = true) : KeysNonEmpty d := by
+  intro kv hkv e he
+  have h1 := List.all_eq_true.mp h kv hkv
+  have h2 := List.all_eq_true.mp h1 e he
+  match hk : e.1 with
+  | some (c :: r) => exact ⟨c, r, rfl⟩
+  | some [] => rw [hk] at h2; cases h2
+  | none => rw [hk] at h2; cases h2
+
 theorem keysSome_nil : KeysSome [] := by intro kv h; cases h
 
 theorem absG_length (d : PyRt.GData) : (absG d).length = d.length := by simp [absG]
